@@ -22,6 +22,7 @@ import (
 	"github.com/sarchlab/akita/v4/mem/vm"
 	"github.com/sarchlab/akita/v4/sim"
 	"github.com/sarchlab/mgpusim/v4/amd/driver"
+	"github.com/sarchlab/mgpusim/v4/amd/protocol"
 
 	"verifharness/vh"
 )
@@ -29,13 +30,16 @@ import (
 // ---------------------------------------------------------------- cases
 
 type Op struct {
-	Op string `json:"op"` // enq | drain
-	Q  int    `json:"q"`
-	ID uint64 `json:"id,omitempty"`
+	Op  string `json:"op"` // enq | drain
+	Q   int    `json:"q"`
+	ID  uint64 `json:"id,omitempty"`
+	K   string `json:"k,omitempty"`   // "" = NoopCommand, "async" = LaunchKernelCommand answered by the harness' GPU
+	Lat int    `json:"lat,omitempty"` // cycles until the harness' GPU answers
 }
 
 type Step struct {
 	G     string   `json:"g"`     // granted thread: a<t> | ra | es | e
+	At    string   `json:"at"`    // yield point it was waiting at
 	Chain []string `json:"chain"` // model steps this grant stands for
 	Obs   []uint64 `json:"obs"`   // observation after the system went quiet
 	Odd   string   `json:"odd,omitempty"`
@@ -57,6 +61,8 @@ type Case struct {
 	Policy  string   `json:"policy,omitempty"` // how to continue: first | random | stop
 	Seed    uint64   `json:"seed,omitempty"`
 	Bias    int      `json:"bias,omitempty"`
+	Probe   bool     `json:"probe,omitempty"` // allow DrainCommandQueue's send while runAsync is not in its select
+	Hold    string   `json:"hold,omitempty"`  // thread:point kept waiting while anything else can move
 	Cfg     string   `json:"cfg,omitempty"` // model configuration to compare with: fixed | orig | cap1 | rerun
 	Steps   []Step   `json:"steps,omitempty"`
 	Hung    bool     `json:"hung"`
@@ -88,6 +94,7 @@ type thread struct {
 	ops  []Op
 	cur  atomic.Int64 // index of the op being executed (== number of completed ops when idle)
 	rets atomic.Int64
+	sending bool // granted at drain:signal while runAsync was busy: blocked in the channel send
 	// engine threads
 	started bool
 	qi      int
@@ -104,6 +111,7 @@ type sched struct {
 	d        *driver.Driver
 	qs       []*driver.CommandQueue
 	arrivals chan arrival
+	probe    bool
 	free     atomic.Bool
 	me       int64
 	byGoid   map[int64]*thread
@@ -112,6 +120,62 @@ type sched struct {
 	engs     []*thread
 	log      []Event
 	qshadow  [][2]uint64
+	gpuPort  sim.Port
+	eng      *sim.SerialEngine
+	cmdQ     map[uint64]int // command id -> queue index
+	cmdLat   map[uint64]int
+	gpuQ     atomic.Int64 // queue whose response event is being handled
+	lastRet  int          // queue of the last response consumed by processReturnReq
+}
+
+// ---------------------------------------------------------------- the harness' GPU
+
+// gpuConn plays the GPU side of the driver's "GPU" port: every LaunchKernelReq
+// is answered by a LaunchKernelRsp delivered by an engine event `lat` cycles later.
+type gpuConn struct {
+	sim.HookableBase
+	s *sched
+}
+
+type rspEvent struct {
+	*sim.EventBase
+	rsp *protocol.LaunchKernelRsp
+	q   int
+}
+
+func (c *gpuConn) Name() string                  { return "HarnessGPU" }
+func (c *gpuConn) PlugIn(port sim.Port)          { port.SetConnection(c) }
+func (c *gpuConn) Unplug(port sim.Port)          {}
+func (c *gpuConn) NotifyAvailable(port sim.Port) {}
+func (c *gpuConn) NotifySend() {
+	s := c.s
+	for {
+		m := s.gpuPort.RetrieveOutgoing()
+		if m == nil {
+			return
+		}
+		req, ok := m.(*protocol.LaunchKernelReq)
+		if !ok {
+			continue
+		}
+		id := req.PacketAddress
+		lat := s.cmdLat[id]
+		if lat < 1 {
+			lat = 1
+		}
+		rsp := protocol.NewLaunchKernelRsp(req.Dst, req.Src, req.ID)
+		t := s.eng.CurrentTime() + sim.VTimeInSec(float64(lat)*1e-9)
+		s.eng.Schedule(rspEvent{sim.NewEventBase(t, c), rsp, s.cmdQ[id]})
+	}
+}
+
+// Handle runs in the engine goroutine, inside SerialEngine.Run's pauseLock.
+func (c *gpuConn) Handle(e sim.Event) error {
+	ev := e.(rspEvent)
+	c.s.gpuQ.Store(int64(ev.q))
+	c.s.hook("gpu:event")
+	c.s.gpuPort.Deliver(ev.rsp)
+	return nil
 }
 
 var goidRe = regexp.MustCompile(`(?m)^goroutine (\d+) \[([^\],]+)`)
@@ -272,7 +336,7 @@ func engHoldsPause(e *thread) bool {
 		return false
 	}
 	switch e.point {
-	case "tick:begin", "tick:queue", "deq:notify", "tick:end":
+	case "tick:begin", "tick:queue", "deq:notify", "tick:end", "gpu:event":
 		return true
 	}
 	return false
@@ -304,6 +368,9 @@ func (s *sched) enabled(th *thread) bool {
 // grantable: enabled, and the whole chain up to the next yield point can run
 // (the engine tests noMoreEvent and locks pauseLock without a yield between).
 func (s *sched) grantable(th *thread) bool {
+	if s.probe && th != nil && th.kind == kApp && th.atYield && !th.done && th.point == "drain:signal" {
+		return true // on the code as specified the send blocks until runAsync is back in its select
+	}
 	if !s.enabled(th) {
 		return false
 	}
@@ -364,6 +431,8 @@ func appCode(a *thread) (uint64, uint64, uint64) {
 		"unsub:close": 6, "unsub:remove": 7}[a.point]
 	if a.point == "wait" && a.parked {
 		code = 5
+	} else if a.point == "drain:signal" && a.parked && a.sending {
+		code = 2 // blocked in the rendezvous: still "about to signal"
 	} else if a.parked || code == 0 {
 		code = 98
 	}
@@ -395,11 +464,17 @@ func (s *sched) observe() []uint64 {
 		case "eng:run":
 			ec = 1
 		case "tick:begin":
-			ec = 4
+			ec = 11
+		case "gpu:event":
+			ec = 3
 		case "tick:queue":
 			ec, ei = 6, uint64(e.qi)
 		case "deq:notify":
-			ec, ei = 7, uint64(e.qi)
+			if e.qi < 0 { // before the first queue is visited: Dequeue of processLaunchKernelReturn
+				ec, ei = 5, uint64(s.lastRet)
+			} else {
+				ec, ei = 7, uint64(e.qi)
+			}
 		case "tick:end":
 			ec = 8
 		case "eng:returned":
@@ -453,12 +528,25 @@ func rep(x string, n int) []string {
 }
 
 // chain translates one granted real step into the model steps it stands for.
-func (s *sched) chain(th *thread, name, old string) ([]string, string) {
+func (s *sched) chain(th *thread, name, old string, oldGq int64, wasSending bool) ([]string, string) {
 	switch th.kind {
 	case kApp:
+		if old == "drain:signal" && th.parked {
+			th.sending = true // blocked in the send: no model step yet
+			return []string{}, ""
+		}
 		return []string{"TApp " + name[1:]}, ""
 	case kRa:
-		return []string{"TRa"}, ""
+		ch := []string{"TRa"}
+		if old == "ra:top" {
+			for i, a := range s.apps { // a blocked sender completed the rendezvous
+				if a.sending && a.atYield {
+					a.sending = false
+					ch = append(ch, fmt.Sprintf("TApp %d", i))
+				}
+			}
+		}
+		return ch, ""
 	}
 	if old == "eng:start" {
 		return []string{"TEngStart"}, ""
@@ -470,13 +558,27 @@ func (s *sched) chain(th *thread, name, old string) ([]string, string) {
 	if th.done {
 		nw = "gone"
 	}
-	switch {
-	case old == "eng:run" && nw == "tick:begin":
-		return rep("TEng", 3), ""
-	case old == "tick:end" && nw == "tick:begin":
-		return rep("TEng", 4), ""
-	case old == "tick:end" && nw == "eng:returned":
-		return rep("TEng", 2), ""
+	// SerialEngine.Run from noMoreEvent() to the next yield point
+	loop := func() []string {
+		switch nw {
+		case "tick:begin":
+			return rep("TEng", 3)
+		case "gpu:event":
+			return rep("TEng", 2)
+		case "eng:returned":
+			return rep("TEng", 1)
+		}
+		return nil
+	}
+	switch old {
+	case "eng:run":
+		return loop(), ""
+	case "tick:begin":
+		return rep("TEng", 2), "" // sendToGPUs, processReturnReq
+	case "tick:end":
+		return append([]string{"TEng"}, loop()...), ""
+	case "gpu:event":
+		return append([]string{fmt.Sprintf("TEngGpu %d", oldGq), "TEng"}, loop()...), ""
 	}
 	return []string{"TEng"}, ""
 }
@@ -487,7 +589,11 @@ func (s *sched) appMain(t int) {
 		th.cur.Store(int64(i))
 		s.yieldAs(t, "app:idle")
 		if o.Op == "enq" {
-			s.d.Enqueue(s.qs[o.Q], &driver.NoopCommand{ID: fmt.Sprintf("c%d", o.ID)})
+			if o.K == "async" {
+				s.d.Enqueue(s.qs[o.Q], &driver.LaunchKernelCommand{ID: fmt.Sprintf("c%d", o.ID), DPacket: driver.Ptr(o.ID)})
+			} else {
+				s.d.Enqueue(s.qs[o.Q], &driver.NoopCommand{ID: fmt.Sprintf("c%d", o.ID)})
+			}
 		} else {
 			s.d.DrainCommandQueue(s.qs[o.Q])
 			th.rets.Add(1)
@@ -517,8 +623,21 @@ func runCase(c *Case, maxSteps int, explore int) {
 	allQuiet(me)
 	s := &sched{me: me, arrivals: make(chan arrival, 256), byGoid: map[int64]*thread{}}
 	driver.VerifYieldHook = s.hook
-	s.d = driver.MakeBuilder().WithEngine(sim.NewSerialEngine()).
+	s.eng = sim.NewSerialEngine()
+	s.probe = c.Probe
+	s.d = driver.MakeBuilder().WithEngine(s.eng).
 		WithPageTable(vm.NewPageTable(12)).WithLog2PageSize(12).Build("Driver")
+	s.d.RegisterGPU(sim.NewPort(nil, 4, 4, "GPU1.CP"), driver.DeviceProperties{CUCount: 4, DRAMSize: 1 << 24})
+	s.gpuPort = s.d.GetPortByName("GPU")
+	(&gpuConn{s: s}).PlugIn(s.gpuPort)
+	s.cmdQ, s.cmdLat = map[uint64]int{}, map[uint64]int{}
+	for _, p := range c.Progs {
+		for _, o := range p {
+			if o.Op == "enq" {
+				s.cmdQ[o.ID], s.cmdLat[o.ID] = o.Q, o.Lat
+			}
+		}
+	}
 	nctx := 1
 	if c.NQ >= 2 {
 		nctx = 2
@@ -571,6 +690,17 @@ func runCase(c *Case, maxSteps int, explore int) {
 			case "stop":
 				names = nil
 			case "random":
+				if c.Hold != "" { // keep one thread waiting at one yield point while anything else can move
+					var rest []string
+					for _, n := range names {
+						if th := s.byName(n); !(strings.HasPrefix(c.Hold, n+":") && th != nil && th.point == c.Hold[len(n)+1:]) {
+							rest = append(rest, n)
+						}
+					}
+					if len(rest) > 0 {
+						names = rest
+					}
+				}
 				name = names[rng.Intn(len(names))]
 				// bias: 1 prefers the engine, 2 prefers application threads, 3 starves the engine
 				if c.Bias != 0 && rng.Intn(3) != 0 {
@@ -592,6 +722,8 @@ func runCase(c *Case, maxSteps int, explore int) {
 		}
 		th := s.byName(name)
 		old := th.point
+		oldGq := s.gpuQ.Load()
+		wasSending := th.sending
 		// what the application thread is about to do (for the monitor's log)
 		if th.kind == kApp && old == "app:idle" && th.ops[th.cur.Load()].Op == "enq" {
 			o := th.ops[th.cur.Load()]
@@ -604,7 +736,12 @@ func runCase(c *Case, maxSteps int, explore int) {
 		th.atYield = false
 		th.grant <- struct{}{}
 		s.settle()
-		ch, odd := s.chain(th, name, old)
+		for qi, q := range s.qs { // which queue did processReturnReq complete a command of?
+			if uint64(q.NumCommand()) < s.qshadow[qi][0] {
+				s.lastRet = qi
+			}
+		}
+		ch, odd := s.chain(th, name, old, oldGq, wasSending)
 		obs := s.observe()
 		if th.kind == kApp && th.rets.Load() > rets {
 			c.Log = append(c.Log, Event{E: "ret", T: th.idx, Q: th.ops[th.cur.Load()-1].Q})
@@ -622,7 +759,7 @@ func runCase(c *Case, maxSteps int, explore int) {
 			}
 		}
 		c.Grants = append(c.Grants, name)
-		c.Steps = append(c.Steps, Step{G: name, Chain: ch, Obs: obs, Odd: odd})
+		c.Steps = append(c.Steps, Step{G: name, At: old, Chain: ch, Obs: obs, Odd: odd})
 	}
 	c.Hung = hung
 	if hung {
@@ -656,7 +793,11 @@ func coqOps(p []Op) string {
 	var xs []string
 	for _, o := range p {
 		if o.Op == "enq" {
-			xs = append(xs, fmt.Sprintf("OEnq %d (noop %d)", o.Q, o.ID))
+			if o.K == "async" {
+				xs = append(xs, fmt.Sprintf("OEnq %d (mkCmd %d Async)", o.Q, o.ID))
+			} else {
+				xs = append(xs, fmt.Sprintf("OEnq %d (noop %d)", o.Q, o.ID))
+			}
 		} else {
 			xs = append(xs, fmt.Sprintf("ODrain %d", o.Q))
 		}
@@ -679,6 +820,8 @@ func coqCase(c *Case) string {
 
 // ---------------------------------------------------------------- generation
 
+var lats = []int{1, 2, 3, 5, 9, 40}
+
 func genProg(r *vh.Rng, nq int, next *uint64) []Op {
 	var p []Op
 	rounds := 1 + r.Intn(3)
@@ -690,7 +833,11 @@ func genProg(r *vh.Rng, nq int, next *uint64) []Op {
 				q = r.Intn(nq)
 			}
 			*next++
-			p = append(p, Op{Op: "enq", Q: q, ID: *next})
+			o := Op{Op: "enq", Q: q, ID: *next}
+			if r.Intn(3) == 0 {
+				o.K, o.Lat = "async", lats[r.Intn(len(lats))]
+			}
+			p = append(p, o)
 		}
 		if r.Intn(5) == 0 {
 			q = r.Intn(nq)
@@ -700,6 +847,9 @@ func genProg(r *vh.Rng, nq int, next *uint64) []Op {
 	return p
 }
 
+var holds = []string{"a0:drain:signal", "ra:ra:test", "ra:ra:continue", "ra:ra:tick", "ra:ra:pause",
+	"e:eng:returned", "e:eng:run", "e:tick:end", "a0:wait", "a0:drain:check"}
+
 func genCase(r *vh.Rng, cfg string) *Case {
 	c := &Case{NQ: 1 + r.Intn(3), Policy: "random", Seed: r.U64(), Bias: r.Intn(4), Cfg: cfg}
 	nt := 1 + r.Intn(3)
@@ -707,22 +857,81 @@ func genCase(r *vh.Rng, cfg string) *Case {
 	for t := 0; t < nt; t++ {
 		c.Progs = append(c.Progs, genProg(r, c.NQ, &next))
 	}
+	if r.Intn(3) == 0 {
+		c.Hold = holds[r.Intn(len(holds))]
+	}
+	c.Probe = r.Bool()
 	return c
 }
 
-// explore runs every grant sequence that differs from an already executed
-// one within the first `depth` steps (the rest follows the "first" policy).
-func exploreAll(base *Case, depth, maxRuns, maxSteps int) []*Case {
+func noopOp(q int, id uint64) Op           { return Op{Op: "enq", Q: q, ID: id} }
+func asyncOp(q int, id uint64, lat int) Op { return Op{Op: "enq", Q: q, ID: id, K: "async", Lat: lat} }
+func drainOp(q int) Op                     { return Op{Op: "drain", Q: q} }
+
+// shapes: programs aimed at the windows of the protocol (a thread kept between
+// Subscribe and its signal while another drains; runAsync kept at each of its
+// yield points while the engine is alive because of another queue's command;
+// a busy context created before an idle one), each with the holds that open
+// the window.
+func shapes() []*Case {
 	var out []*Case
-	todo := [][]string{{}}
-	seen := map[string]bool{"": true}
+	add := func(nq int, progs [][]Op, hs ...string) {
+		for _, h := range hs {
+			out = append(out, &Case{NQ: nq, Progs: progs, Hold: h, Probe: true, Policy: "random"})
+		}
+	}
+	add(1, [][]Op{{noopOp(0, 1), drainOp(0), drainOp(0), noopOp(0, 2), drainOp(0)}},
+		"ra:ra:test", "ra:ra:continue", "ra:ra:tick", "e:eng:returned")
+	add(2, [][]Op{{asyncOp(1, 1, 40), drainOp(1)}, {noopOp(0, 2), drainOp(0), drainOp(0), noopOp(0, 3), drainOp(0)}},
+		"ra:ra:test", "ra:ra:continue", "ra:ra:pause")
+	add(1, [][]Op{{noopOp(0, 1), noopOp(0, 2), drainOp(0)}, {drainOp(0), drainOp(0)}}, "a0:drain:signal", "a0:drain:check")
+	add(2, [][]Op{{noopOp(0, 1), noopOp(0, 2), drainOp(0)}, {drainOp(1), drainOp(1)}}, "a0:drain:signal")
+	add(2, [][]Op{{noopOp(0, 1), noopOp(0, 2), noopOp(0, 3), drainOp(0)}}, "", "ra:ra:test")
+	add(2, [][]Op{{asyncOp(0, 1, 3), asyncOp(0, 2, 1), drainOp(0)}, {asyncOp(1, 3, 9), noopOp(1, 4), drainOp(1)}},
+		"", "e:tick:end", "ra:ra:test")
+	return out
+}
+
+func shapedCases(r *vh.Rng, cfg string, reps, maxSteps int) []*Case {
+	var out []*Case
+	for _, sh := range shapes() {
+		for k := 0; k < reps; k++ {
+			c := &Case{NQ: sh.NQ, Progs: sh.Progs, Hold: sh.Hold, Probe: true, Policy: "random", Seed: r.U64(), Cfg: cfg}
+			runCase(c, maxSteps, 0)
+			out = append(out, c)
+		}
+	}
+	return out
+}
+
+// releasePoint: index of the first step at which the held thread was let go.
+func releasePoint(c *Case) int {
+	for k, st := range c.Steps {
+		if c.Hold != "" && c.Hold == st.G+":"+st.At {
+			return k
+		}
+	}
+	return len(c.Steps)
+}
+
+// exploreAll runs every grant sequence that differs from an already executed
+// one within `depth` steps after the prefix pre0 (the rest follows the "first" policy).
+func exploreAll(base *Case, pre0 []string, depth, maxRuns, maxSteps int) []*Case {
+	var out []*Case
+	todo := [][]string{pre0}
+	seen := map[string]bool{strings.Join(pre0, ","): true}
+	lim := len(pre0) + depth
 	for len(todo) > 0 && len(out) < maxRuns {
 		pre := todo[0]
 		todo = todo[1:]
-		c := &Case{NQ: base.NQ, Progs: base.Progs, Grants: append([]string{}, pre...), Policy: "first", Cfg: base.Cfg}
-		runCase(c, maxSteps, depth)
+		c := &Case{NQ: base.NQ, Progs: base.Progs, Grants: append([]string{}, pre...), Policy: "first", Cfg: base.Cfg, Probe: base.Probe}
+		runCase(c, maxSteps, lim)
 		out = append(out, c)
-		for k := len(pre); k < len(c.Alts) && k < depth; k++ {
+		start := len(pre)
+		if start < len(pre0) {
+			start = len(pre0)
+		}
+		for k := start; k < len(c.Alts) && k < lim && k < len(c.Grants); k++ {
 			for _, alt := range c.Alts[k] {
 				if alt == c.Grants[k] {
 					continue
@@ -736,6 +945,28 @@ func exploreAll(base *Case, depth, maxRuns, maxSteps int) []*Case {
 			}
 		}
 		c.Alts = nil
+	}
+	return out
+}
+
+// exploreAround: bounded exploration around the point at which a shape's
+// held thread is released.
+func exploreAround(r *vh.Rng, cfg string, depth, runsPer, maxSteps int) []*Case {
+	var out []*Case
+	for i, sh := range shapes() {
+		if sh.Hold == "" || i%2 == 1 && runsPer < 100 {
+			continue
+		}
+		c := &Case{NQ: sh.NQ, Progs: sh.Progs, Hold: sh.Hold, Probe: true, Policy: "random", Seed: r.U64(), Cfg: cfg}
+		runCase(c, maxSteps, 0)
+		k := releasePoint(c) - 2
+		if k < 0 {
+			k = 0
+		}
+		if k > len(c.Grants) {
+			k = len(c.Grants)
+		}
+		out = append(out, exploreAll(&Case{NQ: sh.NQ, Progs: sh.Progs, Cfg: cfg, Probe: true}, c.Grants[:k], depth, runsPer, maxSteps)...)
 	}
 	return out
 }
@@ -808,6 +1039,9 @@ func main() {
 	maxSteps := flag.Int("max-steps", 400, "")
 	exDepth := flag.Int("explore", 0, "exhaustive exploration depth (0 = none)")
 	exRuns := flag.Int("explore-runs", 2000, "")
+	shaped := flag.Int("shaped", 2, "random runs per shaped program and hold")
+	around := flag.Int("around", 0, "exploration depth around the release point of each shape's held thread")
+	aroundRuns := flag.Int("around-runs", 40, "")
 	stressS := flag.Float64("stress", 0, "run the un-instrumented stress loop for this many seconds")
 	stressW := flag.Int("workers", 8, "")
 	stressN := flag.Int64("stress-iters", 0, "stop the stress loop after this many iterations instead")
@@ -845,8 +1079,11 @@ func main() {
 			{NQ: 2, Progs: [][]Op{{{Op: "enq", Q: 0, ID: 1}, {Op: "drain", Q: 0}}, {{Op: "enq", Q: 1, ID: 2}, {Op: "drain", Q: 1}}}, Cfg: *cfg},
 			{NQ: 1, Progs: [][]Op{{{Op: "enq", Q: 0, ID: 1}, {Op: "drain", Q: 0}}, {{Op: "drain", Q: 0}}}, Cfg: *cfg},
 		}
+		bases = append(bases,
+			&Case{NQ: 1, Progs: [][]Op{{asyncOp(0, 1, 2), drainOp(0)}}, Cfg: *cfg},
+			&Case{NQ: 2, Progs: [][]Op{{asyncOp(0, 1, 3), drainOp(0)}, {noopOp(1, 2), drainOp(1)}}, Cfg: *cfg, Probe: true})
 		for _, b := range bases {
-			cases = append(cases, exploreAll(b, *exDepth, *exRuns/len(bases), *maxSteps)...)
+			cases = append(cases, exploreAll(b, nil, *exDepth, *exRuns/len(bases), *maxSteps)...)
 		}
 		result = cases
 	default:
@@ -856,6 +1093,10 @@ func main() {
 			c := genCase(r.Fork(), *cfg)
 			runCase(c, *maxSteps, 0)
 			cases = append(cases, c)
+		}
+		cases = append(cases, shapedCases(r.Fork(), *cfg, *shaped, *maxSteps)...)
+		if *around > 0 {
+			cases = append(cases, exploreAround(r.Fork(), *cfg, *around, *aroundRuns, *maxSteps)...)
 		}
 		result = cases
 	}
